@@ -159,7 +159,7 @@ class RefDEVS:
     def can_start(self):
         return (self.run_state not in (STARTING, STARTED, NOT_INITIALIZED)
                 and self.rep_state in (INITIALIZED, STARTED)
-                and self.clock < self.end)
+                and self.clock <= self.end)
 
     def stop(self):
         # at quiescence the simulator is never running
